@@ -66,7 +66,7 @@ Mech_observed ==
     exoBlockStart    |-> "assign",
     exoUnits         |-> "converted",
     exoChunked       |-> "values",
-    exoReader        |-> "last_block",
+    exoReader        |-> "all_blocks",        \* since b64583c9 (before: only the last connectN survived)
     fileFill         |-> "attrs_and_encoding" ]  \* _standardize_connectivity sets attrs["_FillValue"], the source's stays in .encoding
 
 MechOf(n) ==
